@@ -11,7 +11,7 @@ from eqsig import exceptions as eq_exc
 from eqsig.fns import generic as fns_generic
 
 from pbt import gen
-from pbt.core import clause, HarnessError
+from pbt.core import clause, enum_clause, HarnessError
 
 PROPERTY = "C17"
 CLAUSES = []
@@ -289,9 +289,33 @@ def _gain_cases(draw):
             g = draw(gen.log_uniform(1e-6, 0.0099))
         f = _freq_for_gain(order, cut, dt, g, draw(st.booleans()))
         fs.append(float(min(f, F_MAX * nyq)))
-    return {"order": order, "cut": cut, "dt": dt, "fs": fs, "phase": draw(st.floats(0.0, 6.2831, allow_nan=False)),
+    case = {"order": order, "cut": cut, "dt": dt, "fs": fs, "phase": draw(st.floats(0.0, 6.2831, allow_nan=False)),
             "amp": draw(st.sampled_from([0, 0, -3, 3])), "gibbs": gibbs, "extra": draw(st.sampled_from([1, 2])),
             "periods": draw(st.integers(60, 90)), "container": draw(st.sampled_from(CONTAINERS)), "call": call}
+    if fam in (3, 9, 16, 18):
+        # ambient process state + history: the call is made under a non-default numpy print state, after the same kind of
+        # filter with slightly different cut-offs has been applied to another signal in the same process
+        case["ambient"] = {"precision": draw(st.integers(1, 5)), "threshold": draw(st.sampled_from([1000, 5])),
+                           "suppress": draw(st.booleans()),
+                           "prime": [[draw(st.sampled_from(PRIME_FACTORS)), draw(st.sampled_from([1.0, 1.0, 1.0002, 0.98]))]
+                                     for _ in range(draw(st.integers(1, 2)))]}
+    return case
+
+
+PRIME_FACTORS = [1.0 + 1e-9, 1.0003, 0.9996, 1.004, 1.03, 0.97, 1.12, 1.24]
+
+
+def _prime(case, dt, kwargs):
+    """Earlier calls in the same process: the same filter type / order with perturbed cut-offs on a throw-away signal (what
+    these calls return, or whether scipy accepts them, is not asserted here)."""
+    x = np.sin(0.3 * np.arange(240.0))
+    for f_lo, f_hi in case["ambient"]["prime"]:
+        lo, hi = case["cut"]
+        cut2 = [None if lo is None else lo * f_lo, None if hi is None else min(hi * f_hi, 0.99 * 0.5 / dt)]
+        try:
+            eqsig.Signal(x, dt).butter_pass(cut2, **kwargs)
+        except Exception:  # noqa
+            pass
 
 
 def _freqs(case):
@@ -313,15 +337,17 @@ def _sinusoid(case, f=None):
              "cut-offs log-uniform on [0.002, 0.8] (+ end points, + the documented default call, + 1 in 12 order-3/4 band-pass "
              "designs with a very low lower cut-off), remove_gibbs in {None,start,end,mid}, gibbs_extra in {1,2}, three "
              "sinusoids per case, f placed in the pass / transition / stop band by drawn target gains, cut-offs as list / tuple / "
-             "ndarray; "
+             "ndarray; 1 case in 5 runs under a non-default numpy print state (precision 1-5, summarisation threshold 5, suppress) "
+             "after 1-2 calls of the same filter with cut-offs perturbed by 1e-9..24% on another signal; "
              "non-trivial = design passes the conditioning guard, so the gain is asserted",
         oracle="reference model: middle third == g(f) * x with g the closed-form squared magnitude of the bilinear-transformed "
                "Butterworth filter in t = tan(pi f dt) (validated at import against scipy's zpk design), tolerance 2e-3 * A; "
-               "length, npts, dt preserved; list / tuple / ndarray cut-offs give array_equal outputs",
+               "length, npts, dt preserved; list / tuple / ndarray cut-offs give array_equal outputs; differential: the call under "
+               "the ambient print state / after similar calls == the same call under the default print state (exact)",
         require={"band=pass": 0.35, "band=transition": 0.35, "band=stop": 0.35, "gibbs=None": 0.08, "gibbs=start": 0.05,
                  "gibbs=end": 0.05, "gibbs=mid": 0.05, "type=low": 0.1, "type=high": 0.1, "type=band": 0.15, "guarded": 0.01,
                  "cut=ndarray": 0.08, "cut=list": 0.08, "cut=tuple": 0.08, "order=1": 0.05, "order=2": 0.05, "order=3": 0.05,
-                 "order=4": 0.05, "call=default-cut": 0.01},
+                 "order=4": 0.05, "call=default-cut": 0.01, "ambient-print-state": 0.08},
         min_nontrivial=0.6)
 def butter_gain(case, ctx):
     order, cut, dt = case["order"], case["cut"], case["dt"]
@@ -348,12 +374,25 @@ def butter_gain(case, ctx):
             return
     else:
         ctx.nt()
+    amb = case.get("ambient")
+    if amb:
+        ctx.cls("ambient-print-state")
     for k, f in enumerate(freqs):
         x = _sinusoid(case, f)
         n = len(x)
         g = analytic_gain(order, cut, f, dt)
         ctx.cls("band=pass" if g >= 0.9 else ("band=stop" if g <= 0.01 else "band=transition"))
-        y = _filtered(ctx, x, dt, cut_arg, kwargs, no_cut=no_cut)
+        if amb:
+            with np.printoptions(precision=amb["precision"], threshold=amb["threshold"], suppress=amb["suppress"]):
+                if k == 0:
+                    _prime(case, dt, _butter_kwargs(order, gibbs, extra, "kw"))
+                y = _filtered(ctx, x, dt, cut_arg, kwargs, no_cut=no_cut)
+            # what numpy prints, and what was filtered before, is no input of the filter
+            y_plain = _filtered(ctx, x, dt, cut_arg, kwargs, no_cut=no_cut)
+            ctx.equal(y, y_plain, "the same butter_pass call under numpy print options %r after %d similar call(s) vs under the "
+                                  "default print state" % ({k_: amb[k_] for k_ in ("precision", "threshold", "suppress")}, len(amb["prime"])))
+        else:
+            y = _filtered(ctx, x, dt, cut_arg, kwargs, no_cut=no_cut)
         lo, hi = n // 3, (2 * n) // 3
         ctx.finite(y[lo:hi], "filtered sinusoid (middle third)")
         ctx.close(y[lo:hi], g * x[lo:hi], GAIN_TOL * amp,
@@ -550,6 +589,44 @@ def detrend(case, ctx):
     mean = float(np.sum(part.astype(LD)) / len(part))
     ctx.close(out, x - mean, (n + 8) * EPS * scale,
               "remove_average(%s) vs x - mean(x[:section])" % ("default section=-1" if section is None else "section=%d" % section))
+
+
+# very long records (continuous monitoring, hours at 100-500 Hz): lengths around 2^21 and 2^22
+
+
+def _giant_enum(tier, shard, nshards):
+    items = [(2 ** 21 + 5, 4), (2 ** 21 + 2, 1)]
+    if tier != "quick":
+        items += [(2 ** 20 - 1, 4), (2 ** 21 + 5, 0), (2 ** 21 + 5, 2), (2 ** 22 + 1, 3), (3 * 2 ** 20 + 17, 4), (2 ** 22 + 1, 0)]
+    for i, (n, k) in enumerate(items):
+        if i % nshards == shard:
+            yield {"n": n, "k": k, "dt": 0.005, "seed": 31 + i}
+
+
+@enum_clause(CLAUSES, "giant-detrend", _giant_enum,
+             rule="fixed very long records (1-4 million samples: windowed noise + offset + slow drift), degrees 0..4, object and array level",
+             oracle="reference model (orthonormal polynomial basis on the sample grid, QR): best-fit polynomial of degree <= k of the "
+                    "result == 0 and removed part == its own best-fit polynomial (1e-8 max|record|); Signal.remove_poly == fns.remove_poly",
+             exhaustive_note="the listed (length, degree) pairs", quick_shards=2)
+def giant_detrend(case, ctx):
+    n, k, dt = case["n"], case["k"], case["dt"]
+    t = np.linspace(-1.0, 1.0, n)
+    x = np.random.RandomState(case["seed"]).standard_normal(n) * np.hanning(n) + 0.3 + 0.2 * t - 0.4 * t ** 3
+    ctx.nt(True)
+    ctx.cls("k=%d" % k)
+    tol = 1e-8 * float(np.max(np.abs(x)))
+    q = _poly_basis(n, k)
+    s = ctx.lib(eqsig.Signal, x, dt)
+    ctx.lib(s.remove_poly, poly_fit=k)
+    out_o = np.asarray(s.values)
+    out_a = np.asarray(ctx.lib(fns_generic.remove_poly, x, poly_fit=k))
+    for name, out in (("Signal.remove_poly", out_o), ("fns.remove_poly", out_a)):
+        ctx.shape(out, (n,), name)
+        ctx.finite(out, name)
+        r = x - out
+        ctx.close(r, _project(q, r), tol, "%s(k=%d, n=%d): removed part vs its own best-fit polynomial" % (name, k, n))
+        ctx.close(_project(q, out), np.zeros(n), tol, "%s(k=%d, n=%d): best-fit degree-%d polynomial of the result" % (name, k, n, k))
+    ctx.close(out_o, out_a, tol, "Signal.remove_poly vs fns.remove_poly (n=%d)" % n)
 
 
 # ---------------------------------------------------------------------------
